@@ -604,6 +604,30 @@ def _assigned_names(stmts) -> List[str]:
     return out
 
 
+_MUTATORS = {"append", "extend", "insert", "pop", "remove", "sort", "reverse", "clear", "update", "setdefault", "popitem", "add", "discard"}
+
+
+def _mutated_names(stmts) -> List[str]:
+    """names whose container value is mutated in place inside a loop body (also through nested defs called there)"""
+    out: List[str] = []
+
+    def note(n):
+        if isinstance(n, ast.Name) and n.id not in out:
+            out.append(n.id)
+
+    for s in stmts:
+        for n in ast.walk(s):
+            if isinstance(n, (ast.Assign, ast.AugAssign, ast.AnnAssign, ast.Delete)):
+                tg = n.targets if isinstance(n, (ast.Assign, ast.Delete)) else [n.target]
+                for t in tg:
+                    for x in (t.elts if isinstance(t, (ast.Tuple, ast.List)) else [t]):
+                        if isinstance(x, ast.Subscript):
+                            note(x.value)
+            elif isinstance(n, ast.Call) and isinstance(n.func, ast.Attribute) and n.func.attr in _MUTATORS:
+                note(n.func.value)
+    return out
+
+
 def _attr_store_targets(stmts) -> List[Tuple[str, str]]:
     """(base name, attr) of attribute stores in a loop body (havocked at loop entry)"""
     out = []
@@ -733,7 +757,16 @@ def symbolic_loop(self, s, st: State, kind: str, itv: Optional[Term]) -> Optiona
                 lr.init["%s.%s" % (bn, man)] = o.attrs[man]
                 o.attrs[man] = mk("loopvar", lid, "%s.%s" % (bn, man))
     # containers mutated in the body become inexact *before* the body runs (their content at loop head is a join)
-    head_versions = {oid: o.version for oid, o in st.heap.items()}
+    for nm in _mutated_names(s.body):
+        bt = None
+        for envk in reversed(st.envs):
+            if nm in envk:
+                bt = envk[nm]
+                break
+        o = self.obj(st, bt) if bt is not None else None
+        if o is not None and o.kind in ("list", "dict", "set", "bytearray"):
+            _weaken(o)
+            o.version += 1
     st.ctx = base_ctx + (("loop", lid),)
     head = st.fork()
     ev_loop = self.emit("loop", s, st, loop=lid, lkind=kind, iterable=itv)
